@@ -663,3 +663,57 @@ M('c04-refcount-release-keeps-zero', ['C04', 'C14'], ['R4.8', 'R14.7'], [(BD,
 M('c04-refcount-release-never-stops', ['C04', 'C14'], ['R4.8', 'R14.7'], [(BD,
   "                if count > 0:\n                    self._build_dir_counts[parent] = count\n                    break\n",
   "                if count > 0:\n                    self._build_dir_counts[parent] = count\n                    prev_parent = parent\n                    parent = os.path.dirname(parent)\n                    continue\n")])
+
+# ---- rules that came out of the mutation survey (tools/mutate.py) -----------
+M('c14-handoff-condition-negated', ['C14', 'C10'], ['R14.3', 'R10.4'], [(BD,
+  "                if norm_cased_dir not in self._build_dir_counts:\n"
+  "                    self._error_created_dirs.add(norm_cased_dir)",
+  "                if norm_cased_dir in self._build_dir_counts:\n"
+  "                    self._error_created_dirs.add(norm_cased_dir)")])
+M('c14-handoff-not-virtually-removed', ['C14', 'C10'], ['R14.3', 'R10.4'],
+  [(BD,
+    "                    self._error_created_dirs.add(norm_cased_dir)\n"
+    "                    self._maybe_removed_dirs.add(norm_cased_dir)\n"
+    "            if created_dirs:",
+    "                    self._error_created_dirs.add(norm_cased_dir)\n"
+    "            if created_dirs:")])
+M('c09-mutable-cache-null-locks', 'C09', 'R9.3', [(CA,
+  "        if is_mutable:\n            self._files_lock = threading.Lock()",
+  "        if not is_mutable:\n            self._files_lock = threading.Lock()")])
+M('c03-created-file-polarity', ['C03'], 'R3.2', [(CA,
+  "            operation = self._files.get(filename)\n"
+  "        return operation is not None and not operation.raised",
+  "            operation = self._files.get(filename)\n"
+  "        return operation is not None and operation.raised")])
+M('c02-restore-loop-break', ['C02', 'C03'], ['R2.3', 'R3.5'], [(BK,
+  "                    'Failed to restore old contents of {:s}'.format(filename),\n"
+  "                    exc_info=True)\n                continue",
+  "                    'Failed to restore old contents of {:s}'.format(filename),\n"
+  "                    exc_info=True)\n                break")])
+M('c02-remove-empty-dirs-break', ['C02'], 'R2.3', [(FB,
+  "                os.rmdir(dir_)\n            except OSError:\n                continue",
+  "                os.rmdir(dir_)\n            except OSError:\n                break")])
+M('c12-cache-file-dirs-condition', 'C12', 'R12.4', [(FB,
+  "            if norm_cased_dir not in norm_cased_created_dirs:\n                created_dirs.append(dir_)",
+  "            if norm_cased_dir in norm_cased_created_dirs:\n                created_dirs.append(dir_)")])
+M('c14-apply-handler-no-release', 'C14', 'R14.1', [(FB,
+  "                    self._apply_cached_suboperations(suboperation)\n"
+  "                except Exception:\n"
+  "                    self._build_dirs.error_building_file(filename)\n"
+  "                    raise",
+  "                    self._apply_cached_suboperations(suboperation)\n"
+  "                except Exception:\n"
+  "                    raise")])
+M('c05-listing-root-guard-negated', ['C05', 'C01'], ['R5.8', 'R1.10'], [(CF,
+  "        if norm_cased_dir_name == norm_cased_filename:\n            return False\n"
+  "        subfiles = self._norm_cased_dir_to_subfiles[norm_cased_dir_name]",
+  "        if norm_cased_dir_name != norm_cased_filename:\n            return False\n"
+  "        subfiles = self._norm_cased_dir_to_subfiles[norm_cased_dir_name]")])
+M('c05-listing-verdict-flipped', ['C05', 'C01'], ['R5.8', 'R1.10'], [(CF,
+  "        if subfiles:\n            return False\n        else:\n"
+  "            self._norm_cased_dir_to_subfiles.pop(norm_cased_dir_name)\n            return True",
+  "        if subfiles:\n            return True\n        else:\n"
+  "            self._norm_cased_dir_to_subfiles.pop(norm_cased_dir_name)\n            return False")])
+M('c05-finished-file-not-listed', ['C05', 'C01'], ['R5.8', 'R1.10'], [(CF,
+  "        self._norm_cased_files.add(os.path.normcase(filename))\n        self._add_to_subfiles(filename)\n",
+  "        self._norm_cased_files.add(os.path.normcase(filename))\n")])
